@@ -85,6 +85,8 @@ def run(chk, prog):
             if okc:
                 bounded = True
                 what = "configuration graph, cut by the cycle check in verify(): " + dc
+            else:
+                what = "configuration graph; the cycle check in verify() does not cut it: " + dc
         chk.instance("REC", where, "recursion cycle [%s] is depth-bounded" % label, bounded, "depth driven by %s" % what)
         if not bounded:
             chk.finding("REC", comp[0], "scc", "", where,
